@@ -472,3 +472,158 @@ Proof.
     rewrite Hz. apply Permutation_refl.
 Qed.
 End AurocBuf.
+
+(* ------------------------------------------------------------------------------------- *)
+(* Part C: witnesses                                                                      *)
+(* ------------------------------------------------------------------------------------- *)
+Definition q (n : Z) (d : positive) : Qc := mkq n d.
+Definition sm (x : Qc) (y : Z) : col := [{| s_x := x; s_y := q y 1; s_w := q 1 1 |}].
+
+(* D6 (a): N = 4, samples (.9,0)(.8,1)(.7,1)(0,1) then (.5,0)(.4,1)(.3,0).  The window holds
+   (0,1)(.5,0)(.4,1)(.3,0); the slot after the cursor holds the score 0, is taken for "unfilled",
+   and compute() evaluates only the three newest samples. *)
+Definition d6_cfg : acfg := {| aT := 1; aN := 4 |}.
+Definition d6_batches : list (list col) :=
+  [ [sm (q 9 10) 0; sm (q 8 10) 1; sm (q 7 10) 1; sm (q 0 1) 1];
+    [sm (q 5 10) 0; sm (q 4 10) 1; sm (q 3 10) 0] ].
+Lemma d6_zero_score :
+  acmp d6_cfg (fold_left (aupd d6_cfg) d6_batches (ainit d6_cfg)) = AScalar (q 1 2) /\
+  auroc_ref d6_cfg (lastn 4 (List.concat d6_batches)) = AScalar (q 1 4).
+Proof. split; vm_compute; reflexivity. Qed.
+
+(* D6 (b): a window holding exactly one sample: (1,1).squeeze() is 0-dimensional *)
+Definition d6b_batches : list (list col) := [ [sm (q 9 10) 0] ].
+Lemma d6_single_sample :
+  acmp d6_cfg (fold_left (aupd d6_cfg) d6b_batches (ainit d6_cfg)) = AErr /\
+  auroc_ref d6_cfg (lastn 4 (List.concat d6b_batches)) = AScalar (q 1 2).
+Proof. split; vm_compute; reflexivity. Qed.
+
+(* D6 (c): max_num_samples = 1 with two tasks: (2,1).squeeze() = (2,), the task axis is read as
+   the sample axis and a single number comes back instead of one AUROC per task *)
+Definition d6c_cfg : acfg := {| aT := 2; aN := 1 |}.
+Definition d6c_batches : list (list col) :=
+  [ [ [{| s_x := q 9 10; s_y := q 0 1; s_w := q 1 1 |}; {| s_x := q 3 10; s_y := q 1 1; s_w := q 1 1 |}] ] ].
+Lemma d6_one_slot_two_tasks :
+  acmp d6c_cfg (fold_left (aupd d6c_cfg) d6c_batches (ainit d6c_cfg)) = AScalar (q 0 1) /\
+  auroc_ref d6c_cfg (lastn 1 (List.concat d6c_batches)) = AVec [q 1 2; q 1 2].
+Proof. split; vm_compute; reflexivity. Qed.
+
+(* ---- D5: histories through Pool.exec ---- *)
+Open Scope string_scope.
+Definition o_upd (i : nat) (b : val) : val := VT "upd" [vnat i; b].
+Definition o_cmp (i : nat) : val := VT "compute" [vnat i].
+Definition o_save (i k : nat) : val := VT "save" [vnat i; vnat k].
+Definition o_load (j k : nat) : val := VT "load" [vnat j; vnat k].
+Definition o_reset (i : nat) : val := VT "reset" [vnat i].
+Definition o_new (i : nat) : val := VT "new" [vnat i].
+Definition o_clone (i j : nat) : val := VT "clone" [vnat i; vnat j].
+(* the same continuation (update, compute, update, compute, ...) applied to object i *)
+Definition cont_on (bs : list val) (i : nat) : list val := flat_map (fun b => [o_upd i b; o_cmp i]) bs.
+Definition is_compute (o : val) : bool := match o with VT t _ => String.eqb t "compute" | _ => false end.
+Definition computes (ops obs : list val) : list val :=
+  map snd (filter (fun p => is_compute (fst p)) (combine ops obs)).
+(* what compute() returned along a history on a pool of n fresh objects *)
+Definition behaviour (M : Metric) (K : Codec M) (c : cfg M) (n : nat) (ops : list val) : list val :=
+  computes ops (exec M K c (pool0 M c n) ops).
+
+(* C09 statement for one class: some history, some continuation -- the object restored with
+   load_state_dict(state_dict()) into a fresh instance behaves differently from the original *)
+Definition load_breaks (M : Metric) (K : Codec M) : Prop :=
+  exists (c : cfg M) (pre : list val) (bs : list val),
+    behaviour M K c 2 (pre ++ [o_save 0 0; o_load 1 0] ++ cont_on bs 0) <>
+    behaviour M K c 2 (pre ++ [o_save 0 0; o_load 1 0] ++ cont_on bs 1).
+(* C10 statement: after reset() the object behaves differently from a fresh one *)
+Definition reset_breaks (M : Metric) (K : Codec M) : Prop :=
+  exists (c : cfg M) (pre : list val) (bs : list val),
+    behaviour M K c 2 (pre ++ [o_reset 0; o_new 1] ++ cont_on bs 0) <>
+    behaviour M K c 2 (pre ++ [o_reset 0; o_new 1] ++ cont_on bs 1).
+
+Definition vrow (l : list Z) : val := VL [VL (map VZ l)].
+Definition wcfg3 : wcfg := {| cT := 1; cN := 3; cLife := false; cOpt := false |}.
+(* one-event CTR batches: click x, weight 1 *)
+Definition ctr_b (x : Z) : val := VL [vrow [x]; VL []; vrow [1%Z]].
+Definition ctr_pre : list val := [o_upd 0 (ctr_b 1); o_upd 0 (ctr_b 0)].
+Definition ctr_cont : list val := [ctr_b 1; ctr_b 1; ctr_b 1].
+
+Lemma wctr_load_breaks : load_breaks (wctr false) (wctr_codec false).
+Proof. exists wcfg3, ctr_pre, ctr_cont. vm_compute. discriminate. Qed.
+Lemma wctr_reset_breaks : reset_breaks (wctr false) (wctr_codec false).
+Proof. exists wcfg3, ctr_pre, ctr_cont. vm_compute. discriminate. Qed.
+(* the values of the witness: original 2/3, 2/3, 1 -- restored 1/2, 1, 1 *)
+Lemma wctr_load_witness_values :
+  behaviour (wctr false) (wctr_codec false) wcfg3 2 (ctr_pre ++ [o_save 0 0; o_load 1 0] ++ cont_on ctr_cont 0)
+    = [VL [vq (q 2 3)]; VL [vq (q 2 3)]; VL [vq (q 1 1)]] /\
+  behaviour (wctr false) (wctr_codec false) wcfg3 2 (ctr_pre ++ [o_save 0 0; o_load 1 0] ++ cont_on ctr_cont 1)
+    = [VL [vq (q 1 2)]; VL [vq (q 1 1)]; VL [vq (q 1 1)]].
+Proof. split; vm_compute; reflexivity. Qed.
+(* reset witness: first value after reset 0, fresh 1 *)
+Lemma wctr_reset_witness_values :
+  behaviour (wctr false) (wctr_codec false) wcfg3 2 (ctr_pre ++ [o_reset 0; o_new 1] ++ cont_on [ctr_b 1] 0) = [VL [vq (q 0 1)]] /\
+  behaviour (wctr false) (wctr_codec false) wcfg3 2 (ctr_pre ++ [o_reset 0; o_new 1] ++ cont_on [ctr_b 1] 1) = [VL [vq (q 1 1)]].
+Proof. split; vm_compute; reflexivity. Qed.
+
+(* the other four classes *)
+Definition wcal_b (x y : Z) : val := VL [vrow [x]; vrow [y]; vrow [1%Z]].
+Lemma wcal_load_breaks : load_breaks (wcal false) (wcal_codec false).
+Proof. exists wcfg3, [o_upd 0 (wcal_b 1 1); o_upd 0 (wcal_b 0 1)], [wcal_b 1 1; wcal_b 1 1; wcal_b 1 1]. vm_compute. discriminate. Qed.
+Lemma wcal_reset_breaks : reset_breaks (wcal false) (wcal_codec false).
+Proof. exists wcfg3, [o_upd 0 (wcal_b 1 1); o_upd 0 (wcal_b 0 1)], [wcal_b 1 1; wcal_b 1 1; wcal_b 1 1]. vm_compute. discriminate. Qed.
+Definition wmse_b (x y : Z) : val := VL [vrow [x]; vrow [y]; vrow [1%Z]].
+Lemma wmse_load_breaks : load_breaks (wmse false) (wmse_codec false).
+Proof. exists wcfg3, [o_upd 0 (wmse_b 1 0); o_upd 0 (wmse_b 0 0)], [wmse_b 2 0; wmse_b 0 0; wmse_b 0 0]. vm_compute. discriminate. Qed.
+(* NOTE: reset() of WindowedMeanSquaredError is NOT refuted: its compute() always sums the whole
+   (zero-padded) buffer, so a stale cursor after reset() is only a rotation of the slots. *)
+Definition wne_b (num : Z) (y : Z) : val := VL [VL [VL [VQ num 4]]; vrow [y]; vrow [1%Z]].
+Lemma wne_load_breaks : load_breaks (wne false) (wne_codec false).
+Proof. exists wcfg3, [o_upd 0 (wne_b 1 1); o_upd 0 (wne_b 1 0)], [wne_b 3 1; wne_b 3 1; wne_b 3 1]. vm_compute. discriminate. Qed.
+Lemma wne_reset_breaks : reset_breaks (wne false) (wne_codec false).
+Proof. exists wcfg3, [o_upd 0 (wne_b 1 1); o_upd 0 (wne_b 1 0)], [wne_b 3 1; wne_b 3 1; wne_b 3 1]. vm_compute. discriminate. Qed.
+Definition acfg3 : acfg := {| aT := 1; aN := 3 |}.
+Definition au_b (num : Z) (y : Z) : val := VL [VL [VL [VQ num 8]]; vrow [y]; vrow [1%Z]].
+Lemma wauroc_load_breaks : load_breaks (wauroc false) (wauroc_codec false).
+Proof. exists acfg3, [o_upd 0 (au_b 7 0); o_upd 0 (au_b 6 1)], [au_b 5 1; au_b 4 0; au_b 3 1]. vm_compute. discriminate. Qed.
+Lemma wauroc_reset_breaks : reset_breaks (wauroc false) (wauroc_codec false).
+Proof. exists acfg3, [o_upd 0 (au_b 7 0); o_upd 0 (au_b 6 1)], [au_b 5 1; au_b 4 0; au_b 3 1]. vm_compute. discriminate. Qed.
+
+(* ---- V_fixed: the cursor is part of the saved / reset state ---- *)
+Lemma win_fixed_load W c tgt s : load (win_metric W true) c tgt (save (win_metric W true) c s) = s.
+Proof. reflexivity. Qed.
+Lemma win_fixed_reset W c s : rst (win_metric W true) c s = init (win_metric W true) c.
+Proof. reflexivity. Qed.
+Lemma wauroc_fixed_load c tgt s : load (wauroc true) c tgt (save (wauroc true) c s) = s.
+Proof. reflexivity. Qed.
+Lemma wauroc_fixed_reset c s : rst (wauroc true) c s = init (wauroc true) c.
+Proof. reflexivity. Qed.
+
+(* Pool level, for any metric with these two equations: save+load into ANY object yields the very
+   state a deep copy yields; reset yields the very state of a fresh object.  Identical states
+   have identical futures (exec is a function of the pool). *)
+Section FixedPool.
+Variable M : Metric.
+Variable K : Codec M.
+Variable c : cfg M.
+Definition after (p : pool M) (ops : list val) : pool M := fold_left (fun p o => fst (step M K c p o)) ops p.
+
+Lemma nth_set_nth {X} (d x : X) : forall k l, k < List.length l -> nth k (set_nth k x l) d = x.
+Proof.
+  induction k as [|k IH]; intros [|y l] Hk; cbn in *; try lia; [reflexivity|]. apply IH. lia.
+Qed.
+
+Theorem load_bisim_of_eq :
+  (forall tgt s, load M c tgt (save M c s) = s) ->
+  forall (p : pool M) (i j k : nat), k < List.length (dicts M p) ->
+    objs M (after p [o_save i k; o_load j k]) = objs M (after p [o_clone i j]).
+Proof.
+  intros Hls p i j k Hk. unfold after, o_save, o_load, o_clone, vnat. cbn [fold_left].
+  cbn -[set_nth nth Z.of_nat Z.to_nat]. unfold get. cbn -[set_nth nth Z.of_nat Z.to_nat].
+  rewrite !Nat2Z.id. rewrite nth_set_nth by exact Hk. rewrite Hls. reflexivity.
+Qed.
+
+Theorem reset_bisim_of_eq :
+  (forall s, rst M c s = init M c) ->
+  forall (p : pool M) (i : nat), objs M (after p [o_reset i]) = objs M (after p [o_new i]).
+Proof.
+  intros Hr p i. unfold after, o_reset, o_new, vnat. cbn [fold_left].
+  cbn -[set_nth nth Z.of_nat Z.to_nat]. rewrite Hr. reflexivity.
+Qed.
+End FixedPool.
